@@ -1,13 +1,16 @@
 package props
 
 import (
+	"fmt"
 	"go/token"
 	"go/types"
+	"os"
 	"strconv"
 	"strings"
 	"verif/checker/internal/ana"
 
 	"golang.org/x/tools/go/ssa"
+	"golang.org/x/tools/go/ssa/ssautil"
 )
 
 type tokenPos = token.Pos
@@ -384,4 +387,140 @@ func globalRoot(b *ana.Builder, v ssa.Value) *ssa.Global {
 		}
 	}
 	return nil
+}
+
+// sigKey renders a function's receiver, parameter and result types (no names).
+func sigKey(fn *ssa.Function) string {
+	sg := fn.Signature
+	var sb strings.Builder
+	if r := sg.Recv(); r != nil {
+		sb.WriteString("(" + types.TypeString(r.Type(), nil) + ")")
+	}
+	sb.WriteString("(")
+	for i := 0; i < sg.Params().Len(); i++ {
+		if i > 0 {
+			sb.WriteString(",")
+		}
+		sb.WriteString(types.TypeString(sg.Params().At(i).Type(), nil))
+	}
+	sb.WriteString(")(")
+	for i := 0; i < sg.Results().Len(); i++ {
+		if i > 0 {
+			sb.WriteString(",")
+		}
+		sb.WriteString(types.TypeString(sg.Results().At(i).Type(), nil))
+	}
+	sb.WriteString(")")
+	return sb.String()
+}
+
+// helperSigs: unexported helpers the rules anchor on, with the signature they
+// have on the pinned tree. A helper is looked up by name first; after a rename
+// it is re-identified as the only unexported function of its package with this
+// signature (rules never depend on the name itself). Ambiguity or absence is
+// an unresolved anchor.
+var helperSigs = map[string]string{
+	"pkg/curl.Curl.in":                   "(*github.com/wollac/iota-crypto-demo/pkg/curl.Curl)(github.com/iotaledger/iota.go/trinary.Trits,uint)()",
+	"pkg/curl.Curl.out":                  "(*github.com/wollac/iota-crypto-demo/pkg/curl.Curl)(github.com/iotaledger/iota.go/trinary.Trits,uint)()",
+	"pkg/curl.Curl.transform":            "(*github.com/wollac/iota-crypto-demo/pkg/curl.Curl)()()",
+	"pkg/curl.sBox":                      "(uint,uint,uint,uint)(uint,uint)",
+	"pkg/pow/v2.sufficientTrailingZeros": "([]byte,uint64)(int)",
+	"pkg/pow/v2.targetHash":              "([]byte,uint64)(*math/big.Int)",
+	"pkg/pow/v2.toInt":                   "(github.com/iotaledger/iota.go/trinary.Trits)(*math/big.Int)",
+	"pkg/pow/v2.tritToUint":              "(int8)(uint64)",
+	"pkg/pow/v2.checkStateTrits":         "(*[243]uint,*[243]uint,int,*math/big.Int)(int)",
+	"pkg/pow/v2.Worker.worker":           "(*github.com/wollac/iota-crypto-demo/pkg/pow/v2.Worker)([]byte,uint64,int,*math/big.Int,*uint32,*uint64)(uint64,error)",
+	"pkg/encoding/b1t6.decodeGroup":      "(int8,int8)(byte,bool)",
+	"pkg/encoding/b1t6.encodeGroup":      "(byte)(int8,int8)",
+}
+
+// helper resolves an unexported helper: by name, else by unique signature.
+func (c *Ctx) helper(rel, name string) *ssa.Function {
+	if f := c.P.Func(rel, name); f != nil {
+		if os.Getenv("VERIF_DUMP_SIGS") != "" {
+			fmt.Printf("\t%q: %q,\n", rel+"."+name, sigKey(f))
+		}
+		return f
+	}
+	want, ok := helperSigs[rel+"."+name]
+	if !ok {
+		return nil
+	}
+	sp := c.P.Pkg(rel)
+	if sp == nil {
+		return nil
+	}
+	var cands []*ssa.Function
+	for fn := range ssautil.AllFunctions(c.P.SSA) {
+		if fn.Pkg != sp || fn.Parent() != nil || fn.Synthetic != "" || token.IsExported(fn.Name()) || sigKey(fn) != want {
+			continue
+		}
+		// a function that is itself a named anchor (present under its own name) is not a candidate
+		nm := fn.Name()
+		if rcv := fn.Signature.Recv(); rcv != nil {
+			t := rcv.Type()
+			if p, ok := t.(*types.Pointer); ok {
+				t = p.Elem()
+			}
+			if n, ok := t.(*types.Named); ok {
+				nm = n.Obj().Name() + "." + nm
+			}
+		}
+		if _, other := helperSigs[rel+"."+nm]; other {
+			continue
+		}
+		cands = append(cands, fn)
+	}
+	if len(cands) == 1 {
+		c.R.Assume("helper " + rel + "." + name + " not found by name; re-identified by its signature as " + cands[0].Name())
+		return cands[0]
+	}
+	return nil
+}
+
+const permSig = "(*[729]uint,*[729]uint,*[729]uint,*[729]uint)()"
+
+// curlPermFns resolves pkg/curl's permutation functions structurally: method =
+// (*Curl).transform; perm = the function with the four-array signature it
+// calls (assembly stub or portable wrapper); generic = the portable
+// implementation (callee of the wrapper, or the only other such function with
+// a body).
+func curlPermFns(c *Ctx) (method, perm, generic *ssa.Function) {
+	method = c.helper("pkg/curl", "Curl.transform")
+	if method == nil {
+		return
+	}
+	for _, ci := range ana.Calls(method) {
+		if f := ci.Common().StaticCallee(); f != nil && ana.InRepo(f) && sigKey(f) == permSig {
+			if perm != nil && perm != f {
+				return method, nil, nil
+			}
+			perm = f
+		}
+	}
+	if perm == nil {
+		return
+	}
+	if perm.Blocks != nil {
+		for _, ci := range ana.Calls(perm) {
+			if f := ci.Common().StaticCallee(); f != nil && ana.InRepo(f) && sigKey(f) == permSig {
+				generic = f
+			}
+		}
+		if generic == nil {
+			generic = perm
+		}
+		return
+	}
+	n := 0
+	for fn := range ssautil.AllFunctions(c.P.SSA) {
+		if fn.Pkg == perm.Pkg && fn != perm && fn.Parent() == nil && fn.Blocks != nil && fn.Synthetic == "" && sigKey(fn) == permSig {
+			generic = fn
+			n++
+		}
+	}
+	if n != 1 {
+		generic = nil
+	}
+	return
 }
